@@ -291,6 +291,16 @@ def suite_real_mp(ctx):
                     ctx.fail("cKDTree_MP.query", "multi-process kd-tree query differs from single-process", inp,
                              {"ndiff": int((i != i1).sum())}, size=n)
                 ctx.case("real.ckdtree_mp", (r, n, nprocs, kind, chunk, k), nontrivial=n > nprocs)
+                # the same tree object queried again (what kd_tree does per target segment): equal-sized and different-sized query sets
+                tree = cKDTree_MP(data, nprocs=nprocs, chunk=chunk, schedule=kind)
+                for rep_i, qq in enumerate((q, q[::-1].copy(), q[: max(1, n // 2)], q)):
+                    d, i = tree.query(qq, k=k, distance_upper_bound=0.8)
+                    d1, i1 = sp.cKDTree(data).query(qq, k=k, distance_upper_bound=0.8)
+                    if not (np.array_equal(d, d1) and np.array_equal(i, i1)):
+                        ctx.fail("cKDTree_MP.query", f"query number {rep_i + 1} on the same cKDTree_MP object ({len(qq)} points) differs from the single-process query",
+                                 {**inp, "repeat": rep_i + 1, "n_query": len(qq)}, {"ndiff": int((i != i1).sum())}, tags={"cause": "repeated-query"}, size=n)
+                        break
+                ctx.case("real.ckdtree_mp.repeat", (r, n, nprocs, kind, chunk, k), nontrivial=n > nprocs)
         except Exception as e:  # a worker error surfaces as RuntimeError
             ctx.fail("_spatial_mp", f"multi-process run raised {type(e).__name__}: {e}", inp, size=n)
 
